@@ -4,6 +4,7 @@ import (
 	"go/constant"
 	"go/token"
 	"go/types"
+	"strings"
 
 	"golang.org/x/tools/go/ssa"
 )
@@ -573,7 +574,6 @@ func removeUnreachable(f *ssa.Function) {
 	// operands of live instructions are defined in dominating (live) blocks.
 }
 
-
 func replaceUses(f *ssa.Function, old, nw ssa.Value) {
 	var rands []*ssa.Value
 	for _, b := range f.Blocks {
@@ -759,6 +759,104 @@ func fuseBlocks(f *ssa.Function) bool {
 	return false
 }
 
+// mergeForwarder removes one block that consists of phis and a jump only and
+// whose phis feed nothing but phis of its successor (the join left behind by
+// an expanded helper whose results are tested right away): its predecessors
+// become predecessors of the successor.
+func mergeForwarder(f *ssa.Function) bool {
+	for _, b := range f.Blocks {
+		if b == f.Blocks[0] || b == f.Recover || len(b.Succs) != 1 || len(b.Preds) < 2 || !strings.HasPrefix(b.Comment, "inl.cont") {
+			continue
+		}
+		s := b.Succs[0]
+		if s == b || len(s.Preds) < 2 {
+			continue
+		}
+		if _, isJump := b.Instrs[len(b.Instrs)-1].(*ssa.Jump); !isJump {
+			continue
+		}
+		ok := true
+		var phis []*ssa.Phi
+		for _, in := range b.Instrs[:len(b.Instrs)-1] {
+			phi, isPhi := in.(*ssa.Phi)
+			if !isPhi {
+				ok = false
+				break
+			}
+			phis = append(phis, phi)
+			for _, r := range *phi.Referrers() {
+				if rp, isRP := r.(*ssa.Phi); !isRP || rp.Block() != s {
+					ok = false
+				}
+			}
+		}
+		if !ok || len(phis) == 0 {
+			continue
+		}
+		// no predecessor of b may already be a predecessor of s, and b occurs once in s.Preds
+		if _, n := predIndex(s, b); n != 1 {
+			continue
+		}
+		dup := false
+		for _, p := range b.Preds {
+			if _, n := predIndex(s, p); n != 0 {
+				dup = true
+			}
+			if _, n := predIndex(b, p); n != 1 {
+				dup = true
+			}
+		}
+		if dup {
+			continue
+		}
+		bi, _ := predIndex(s, b)
+		inB := map[ssa.Value]*ssa.Phi{}
+		for _, phi := range phis {
+			inB[phi] = phi
+		}
+		for _, in := range s.Instrs {
+			sp, isPhi := in.(*ssa.Phi)
+			if !isPhi {
+				break
+			}
+			old := sp.Edges[bi]
+			var add []ssa.Value
+			for k := range b.Preds {
+				if bp := inB[old]; bp != nil {
+					add = append(add, bp.Edges[k])
+				} else {
+					add = append(add, old)
+				}
+			}
+			ne := append([]ssa.Value{}, sp.Edges[:bi]...)
+			ne = append(ne, add...)
+			ne = append(ne, sp.Edges[bi+1:]...)
+			sp.Edges = ne
+		}
+		np := append([]*ssa.BasicBlock{}, s.Preds[:bi]...)
+		np = append(np, b.Preds...)
+		np = append(np, s.Preds[bi+1:]...)
+		s.Preds = np
+		for _, p := range b.Preds {
+			for k, ps := range p.Succs {
+				if ps == b {
+					p.Succs[k] = s
+				}
+			}
+		}
+		var nbs []*ssa.BasicBlock
+		for _, x := range f.Blocks {
+			if x != b {
+				nbs = append(nbs, x)
+			}
+		}
+		f.Blocks = nbs
+		finishFunc(f)
+		return true
+	}
+	return false
+}
+
 // simplifyCFG brings a function rewritten by the helper expansion back to
 // the shape the builder would have produced for the unextracted code.
 func simplifyCFG(f *ssa.Function) {
@@ -774,6 +872,9 @@ func simplifyCFG(f *ssa.Function) {
 			progress = true
 		}
 		if !progress && fuseBlocks(f) {
+			progress = true
+		}
+		if !progress && mergeForwarder(f) {
 			progress = true
 		}
 		if !progress && dropSingleEdgePhis(f) {
@@ -885,7 +986,7 @@ func forwardLocalStores(f *ssa.Function) bool {
 // function that was not otherwise rewritten.
 func threadOnly(f *ssa.Function) {
 	canonCompare(f)
-	did := false
+	did := foldDecided(f, decidedCond)
 	for dupResultReturns(f) {
 		did = true
 	}
